@@ -44,6 +44,11 @@ Step ==
            /\ Viol("C09", "RefusedOpenLeavesBytes", RefusedLeavesBytes(f, att, real))
            /\ Viol("C09", "ReadOnlyOpenNeverWrites", ReadOnlyNeverWrites(f, att, real))
            /\ Viol("C09", "NoPanic", e.res.k # "panic")
+           \* the arena mapped at a file offset (Options::with_offset): the foreign bytes in front of it are part of the
+           \* file a refused or read-only open must leave alone -- and no open has any business there
+           /\ Viol("C09", "BytesBeforeOffsetUntouched",
+                   (e.before.exists /\ e.after.exists /\ e.before.pre_len = e.att.offset)
+                      => (e.after.pre_len = e.before.pre_len /\ e.after.pre_ok))
            /\ ((model.res # real.res \/ model.tailZeroed # real.tailZeroed \/ (f.exists /\ model.len # real.len))
                  => PrintT(<<"DRIFT", l, 0, "open-outcome">>) /\ PrintT(<<"DRIFT-DETAIL", l, ToJson([model |-> model, real |-> real, file |-> f])>>))
      ELSE TRUE
